@@ -144,6 +144,12 @@ def oracle_reuse(res, s, start, seq):
             return
 
 
+def _set_obj(t, count, p):
+    obj = K.VARCLS[t](count=count)
+    obj.set(K.py_real(p))
+    return obj
+
+
 def oracle_accepted(res, t, count, p):
     """the property on ANY value the implementation accepts: T(count).set(p) succeeded -> the held value has an E5 encoding,
     encode() is that encoding, and it decodes back to the held value at the right position"""
@@ -156,6 +162,14 @@ def oracle_accepted(res, t, count, p):
     held = K.val_of_var(obj)
     if K.has_nan(held):
         return
+    # character codes / bytes given to a text class stand for the encoded bytes: the text held is their E5 reading
+    if t in ("A", "J") and p[0] in ("list", "tuple", "bytes", "ba"):
+        codes = [int(q[1]) for q in p[1]] if p[0] in ("list", "tuple") else list(p[1])
+        want = [K.jis_char(b) if t == "J" else b for b in codes]
+        if held[1] != want:
+            res.violate("set-changes-value", "a text variable set from character codes / bytes does not hold the text these bytes stand for",
+                        case, K.show_val((t, want))[:200], K.show_val(held)[:200])
+            return
     try:
         own = K.own_encode(held)
     except Exception:  # noqa: BLE001
@@ -593,6 +607,29 @@ def main():
                 res.bump("text_codepoint_outcome", f"{t} {'ok' if ans.startswith('ok') else ans}")
                 if ans.startswith("ok"):
                     oracle_accepted(res, t, -1, p)
+    # text classes from lists / tuples of character codes: every code alone, in runs, and out-of-range codes
+    code_inputs = []
+    for c in range(256):
+        code_inputs.append(("list" if c % 2 else "tuple", [("int", c)]))
+    for start in range(0, 256, 16):
+        code_inputs.append(("list", [("int", c) for c in range(start, start + 16)]))
+    code_inputs.append(("tuple", [("int", c) for c in range(256)]))
+    code_inputs += [("list", [("int", 0x41), ("int", 0x5C), ("int", 0x7E), ("int", 0xA1), ("int", 0xDF), ("int", 0xE0)]),
+                    ("list", [("int", 256)]), ("list", [("int", -1)]), ("tuple", [("int", 65), ("int", 300)]), ("list", [("bool", 1), ("int", 0x5C)]),
+                    ("list", []), ("tuple", [])]
+    for _ in range(60 if big else 20):
+        code_inputs.append((rng.choice(["list", "tuple"]), [("int", rng.choice([0x5C, 0x7E, 0xA5, rng.below(256), rng.range(0xA1, 0xDF)])) for _ in range(rng.range(1, 6))]))
+    for t in ("A", "J"):
+        for p in code_inputs:
+            count = -1 if rng.chance(3, 4) else rng.choice([0, 1, 3])
+            ans = K.impl(lambda t=t, p=p, count=count: K.show_obj(_set_obj(t, count, p)))
+            cases.append({"type": t, "count": count, "value": K.show_py(p)[:200]})
+            lines.append(f"codec set {t} {count} {K.show_py(p)}")
+            answers.append(ans)
+            res.count(("set", t, count, K.show_py(p)))
+            res.bump("text_from_codes_outcome", f"{t} {'ok' if ans.startswith('ok') else ans}")
+            if ans.startswith("ok"):
+                oracle_accepted(res, t, count, p)
     hlib.compare_batch(res, drv, "T(count).set(python value) vs Model.Var.setLeaf", cases, lines, answers)
 
     cases, lines, answers = [], [], []
